@@ -31,8 +31,8 @@ ROWS = {
  "join_thorough": dict(acts=S("CvSplitTake", "CvJoin"), depth=2, maxnpts=5, omax=4, degs="DegsT", props=["JoinRestores"], wts='"none", "gen"'),
  "arith_quick": dict(acts=S("CvArith", "CvScalar"), maxnpts=4, omax=3, pts='"gen", "pos"'),
  "arith_thorough": dict(acts=S("CvArith", "CvScalar"), maxnpts=5, omax=4, pts='"gen", "pos"', wts='"none", "gen", "gen2"'),
- "eq_quick": dict(acts=S("CvEq"), maxnpts=4),
- "eq_thorough": dict(acts=S("CvEq"), maxnpts=5, degs="DegsT", wts='"none", "gen", "gen2"'),
+ "eq_quick": dict(acts=S("CvEq"), maxnpts=4, pts='"gen", "flat"'),
+ "eq_thorough": dict(acts=S("CvEq"), maxnpts=5, degs="DegsT", wts='"none", "gen", "gen2", "const"', pts='"gen", "flat"'),
  "clean_quick": dict(acts=S("CvKnotInsert", "CvDegreeIncrease", "CvClean"), scenario="history", prep=1, depth=3, maxnpts=4, nodesize=1, props=["CleanProps"], wts='"none"'),
  "clean_thorough": dict(acts=S("CvKnotInsert", "CvDegreeIncrease", "CvClean"), scenario="history", prep=2, depth=4, maxnpts=4, nodesize=1, props=["CleanProps"], wts='"none"'),
  "misc_quick": dict(acts=S("CvCopy", "CvFraction"), maxnpts=4),
